@@ -163,7 +163,7 @@ def periodic_ok(cls, k):
     return AXKIND[cls][k] != 'rad'
 
 
-def gen_bc_spec(rng, g, kinds=None, periodic_axes=(), robin_signs='wellposed'):
+def gen_bc_spec(rng, g, kinds=None, periodic_axes=(), robin_signs='wellposed', lams=(1.0, 1.0, -1.0, 2.5, 1e-3, 1e3)):
     """Boundary-condition spec: {side: {'kind','a','b','c'}} plus 'periodic' axes list.
     kinds: dict side->kind or None (random among D/N/R)."""
     spec = {'periodic': [int(k) for k in periodic_axes], 'sides': {}}
@@ -171,7 +171,7 @@ def gen_bc_spec(rng, g, kinds=None, periodic_axes=(), robin_signs='wellposed'):
         for j, side in enumerate(SIDES[k]):
             sh = g.side_shape(k)
             kind = (kinds or {}).get(side) or str(rng.choice(['D', 'N', 'R']))
-            lam = float(rng.choice([1.0, 1.0, -1.0, 2.5, 1e-3, 1e3]))
+            lam = float(rng.choice(list(lams)))
             if kind == 'D':
                 a = np.zeros(sh)
                 b = np.ones(sh) * lam
